@@ -68,7 +68,7 @@ pub fn parse_length_range(
 
 /// Parse alphanumeric string (letters and digits only)
 pub fn parse_alphanumeric(input: &str, field_name: &str) -> Result<String, ParseError> {
-    if !input.chars().all(|c| c.is_alphanumeric()) {
+    if !input.chars().all(|c| c.is_ascii_alphanumeric()) {
         return Err(ParseError::InvalidFormat {
             message: format!("{} must contain only letters and digits", field_name),
         });
@@ -78,7 +78,7 @@ pub fn parse_alphanumeric(input: &str, field_name: &str) -> Result<String, Parse
 
 /// Parse uppercase letters only
 pub fn parse_uppercase(input: &str, field_name: &str) -> Result<String, ParseError> {
-    if !input.chars().all(|c| c.is_uppercase() || c.is_whitespace()) {
+    if !input.chars().all(|c| c.is_ascii_uppercase()) {
         return Err(ParseError::InvalidFormat {
             message: format!("{} must contain only uppercase letters", field_name),
         });
@@ -88,7 +88,7 @@ pub fn parse_uppercase(input: &str, field_name: &str) -> Result<String, ParseErr
 
 /// Parse numeric string (digits only)
 pub fn parse_numeric(input: &str, field_name: &str) -> Result<String, ParseError> {
-    if !input.chars().all(|c| c.is_numeric()) {
+    if !input.chars().all(|c| c.is_ascii_digit()) {
         return Err(ParseError::InvalidFormat {
             message: format!("{} must contain only digits", field_name),
         });
@@ -117,7 +117,7 @@ pub fn parse_swift_chars(input: &str, field_name: &str) -> Result<String, ParseE
 
     if !input
         .chars()
-        .all(|c| c.is_alphanumeric() || SWIFT_SPECIAL.contains(c))
+        .all(|c| c.is_ascii_alphanumeric() || SWIFT_SPECIAL.contains(c))
     {
         return Err(ParseError::InvalidFormat {
             message: format!(
@@ -134,6 +134,13 @@ pub fn parse_bic(input: &str) -> Result<String, ParseError> {
     if input.len() != 8 && input.len() != 11 {
         return Err(ParseError::InvalidFormat {
             message: format!("BIC must be 8 or 11 characters, found {}", input.len()),
+        });
+    }
+
+    // 4!a2!a2!c[3!c]: upper-case ASCII letters and digits only (also keeps the byte slicing below safe)
+    if !input.is_ascii() || input.chars().any(|c| c.is_ascii_lowercase()) {
+        return Err(ParseError::InvalidFormat {
+            message: "BIC must consist of upper-case letters and digits".to_string(),
         });
     }
 
@@ -276,7 +283,7 @@ pub fn parse_currency(input: &str) -> Result<String, ParseError> {
         });
     }
 
-    if !input.chars().all(|c| c.is_uppercase()) {
+    if !input.chars().all(|c| c.is_ascii_uppercase()) {
         return Err(ParseError::InvalidFormat {
             message: "Currency code must be uppercase letters".to_string(),
         });
